@@ -123,6 +123,16 @@ def run(ctx):
         conform(o, gs, REF_SWAPPED, "get_swapped_joint_excess_degree_key")
         conform(o, prog.method(ci, "get_joint_excess_degree_key"), REF_KEY, "get_joint_excess_degree_key")
         conform(o, prog.func("JointExcessJointDegreeMatrices.get_topology_index"), REF_TOPINDEX, "get_topology_index")
+        # the decrement is unconditional: an end point of degree 1 has EXCESS degree 0 - `if jd[i] > 1: jd[i] -= 1` keys it under 1
+        for kf in (gs, prog.method(ci, "get_joint_excess_degree_key")):
+            if kf is None:
+                continue
+            kpar = astx.Parents(kf.node)
+            for dec in [n for n in astx.walk_fn(kf.node) if isinstance(n, ast.AugAssign) and isinstance(n.op, ast.Sub) and astx.const_value(n.value) == 1 and isinstance(n.target, ast.Subscript)]:
+                conds_ = [t_ for t_, _ in rules.path_conditions(kpar, dec) if txt(dec.target) in txt(t_)]
+                if conds_:
+                    o.violated(kf, dec, f"`{txt(dec)}` runs only when `{txt(conds_[0])}`: for the other end points the key keeps the DEGREE where the excess degree (degree - 1) "
+                                        "belongs, so the pairing is looked up under the wrong key of the target", shape_free=True)
 
     nl = [n for n in sw.body if isinstance(n, ast.For) and txt(n.iter) == e0s_p]
     filtered = []   # numerator products over a FILTERED collection of keys (judged in C12.4)
